@@ -648,3 +648,56 @@ def _enclosing(func: ast.FunctionDef, target: ast.AST):
     if len(found) != 1:
         raise AnalysisError(f"{func.name}: cannot locate the statement containing `{norm_text(target)}`")
     return found[0]
+
+
+# ---- added after the seeded change C27-seed8: the centering is the intersection over ALL species
+_inner_run_c27 = run
+
+
+def run(ctx) -> None:  # noqa: F811
+    import ast as _ast
+
+    from ..model import norm_text as _nt, walk_no_nested as _walk
+
+    ctx.rule("R-ALLSPECIES", "auto_detect_centering intersects the candidate centerings over every atomic species: the "
+             "species loop may be left early only when no candidate is left; stopping as soon as one candidate survives "
+             "accepts a centering that a heavier species does not have, and the mask then removes allowed reflections")
+    f = ctx.repo.function("abtem.bloch.utils", "auto_detect_centering")
+    loops = [l for l in _walk(f.node) if isinstance(l, _ast.For) and "unique" in _nt(l.iter) and "numbers" in _nt(l.iter)]
+    ctx.require(len(loops) == 1, "auto_detect_centering: loop over the species not found")
+    loop = loops[0]
+    exits = []
+
+    def scan(body, guards):
+        for st in body:
+            if isinstance(st, (_ast.Break, _ast.Return)):
+                exits.append((st, list(guards)))
+            elif isinstance(st, _ast.If):
+                scan(st.body, guards + [(st.test, True)])
+                scan(st.orelse, guards + [(st.test, False)])
+            elif isinstance(st, (_ast.With, _ast.Try)):
+                scan(getattr(st, "body", []), guards)
+            # nested loops: a break there leaves the inner loop only
+            elif isinstance(st, (_ast.For, _ast.While)):
+                for s2 in _ast.walk(st):
+                    if isinstance(s2, _ast.Return):
+                        exits.append((s2, list(guards)))
+
+    scan(loop.body, [])
+    empties = ("len(centerings_to_check)==0", "notcenterings_to_check", "len(centerings_to_check)<1",
+               "centerings_to_check==set()")
+    bad = []
+    for st, guards in exits:
+        ok = any(pol and _nt(t).replace(" ", "") in empties for t, pol in guards)
+        if not ok:
+            bad.append((st, guards))
+    if not exits:
+        ctx.ok("R-ALLSPECIES", f"{f.qualname}:species-loop", f.loc(loop), "every species is tested (no early exit)")
+    for st, guards in bad:
+        g = " and ".join(("" if pol else "not ") + _nt(t) for t, pol in guards) or "unconditionally"
+        ctx.violation("R-ALLSPECIES", f"{f.qualname}:species-loop", f.loc(st),
+                      f"the species loop is left early when `{g}`: the remaining species are never tested against the "
+                      "surviving candidate centering", key_detail="early-exit")
+    if exits and not bad:
+        ctx.ok("R-ALLSPECIES", f"{f.qualname}:species-loop", f.loc(loop), "early exit only when no candidate is left")
+    _inner_run_c27(ctx)
